@@ -3,7 +3,7 @@
 use minijinja::value::Value;
 use minijinja::{context, Environment, State};
 
-pub const NPROGS: i64 = 46;
+pub const NPROGS: i64 = 51;
 
 pub fn rep(s: &str, n: i64) -> String {
     s.repeat(n.max(0) as usize)
@@ -208,6 +208,47 @@ pub fn program(id: i64, n: i64, m: i64, _k: i64) -> Vec<(String, String)> {
             t("base", "<{% block x %}{% if tick() < n %}{% set inner = self.x() %}{{ inner|length }}{% endif %}{% for i in items %}{% for j in range(m) %}{{ i }}{% endfor %}{% endfor %}{{ probe() }}{% endblock %}>".into()),
             t("inc", "({{ k }}{{ probe() }})".into()),
         ],
+        // renders that FAIL without any fuel limit: above the threshold the same failure (kind chain, output written so far) must
+        // come back, below it OutOfFuel.  46-48 run into the recursion limit (lowered to 24 + n by `install`).
+        46 => vec![t(
+            "main",
+            "start{% macro r(x) %}{{ x }}{{ probe() }}{{ r(x + 1) }}{% endmacro %}{% for i in range(m) %}{{ i }}{% endfor %}{{ r(0) }}end".into(),
+        )],
+        47 => vec![
+            t("main", "{{ probe() }}m{% include 'again' %}".into()),
+            t("again", "{% for i in range(m) %}.{% endfor %}{{ probe() }}{% include 'again' %}".into()),
+        ],
+        48 => vec![t("main", format!("w{{{{ probe() }}}}{}{{{{ probe() }}}}deep{}", rep("{% with a = n %}{{ a }}{{ probe() }}", 60), rep("{% endwith %}", 60)))],
+        // another failure (selected by k % 7) behind m levels of macro / include / block nesting, with output before it
+        49 => {
+            let fail = match _k.rem_euclid(7) {
+                0 => "{{ 1 // 0 }}",
+                1 => "{{ n|nosuchfilter }}",
+                2 => "{{ missing.attr.deeper }}",
+                3 => "{% include 'broken' %}",
+                4 => "{{ nosuchfunction(n) }}",
+                5 => "{{ n is nosuchtest }}",
+                _ => "{{ [n] + 1 }}",
+            };
+            let mut v = vec![t("main", "head{% for i in items %}{{ i }}{% endfor %}{{ probe() }}{% include 'l0' %}tail".into())];
+            let depth = m.rem_euclid(4);
+            for l in 0..depth {
+                let body = match l % 3 {
+                    0 => format!("{{% macro f() %}}<{{{{ probe() }}}}{{% include 'l{}' %}}>{{% endmacro %}}a{{{{ f() }}}}", l + 1),
+                    1 => format!("{{% block b %}}[{{{{ probe() }}}}{{% include 'l{}' %}}]{{% endblock %}}", l + 1),
+                    _ => format!("{{% for i in range(2) %}}{{{{ i }}}}{{% endfor %}}{{{{ probe() }}}}{{% include 'l{}' %}}", l + 1),
+                };
+                v.push((format!("l{}", l), body));
+            }
+            v.push((format!("l{}", depth), format!("x{{{{ probe() }}}}{}never", fail)));
+            v.push(t("broken", "b{{ probe() }}{{ 1 // 0 }}".into()));
+            v
+        }
+        // strict undefined behaviour (set by `install`)
+        50 => vec![t(
+            "main",
+            "{% for i in items %}{{ i }}{% endfor %}{{ probe() }}{% macro f(x) %}{{ x }}{{ probe() }}{{ x.nope }}{% endmacro %}{% if k > 2 %}{{ f(d) }}{% endif %}{{ probe() }}{{ undefinedvar }}after".into(),
+        )],
         // combination: a parent block that includes and calls macros, reached through super() in value position from a macro of the child
         _ => vec![
             t("main", "{% extends 'mid' %}{% block body %}{% set s = super() %}{{ s|length }}{{ callit(deco, super()) }}{{ probe() }}{% endblock %}".into()),
@@ -249,6 +290,15 @@ fn super_chain(depth: i64, positions: impl Fn(i64) -> Vec<i64>) -> Vec<(String, 
 }
 
 /// Host functions, filters, tests (and for program 39 a formatter) that re-enter the interpreter.
+pub fn install_limits(env: &mut Environment<'_>, prog: i64, n: i64) {
+    if (46..=48).contains(&prog) {
+        env.set_recursion_limit(24 + n.max(0) as usize);
+    }
+    if prog == 50 {
+        env.set_undefined_behavior(minijinja::UndefinedBehavior::Strict);
+    }
+}
+
 pub fn install(env: &mut Environment<'_>, prog: i64) {
     let ticks = std::sync::Arc::new(std::sync::atomic::AtomicI64::new(0));
     env.add_function("tick", move || ticks.fetch_add(1, std::sync::atomic::Ordering::SeqCst));
